@@ -238,6 +238,9 @@ func main() {
 	lap("pedersencom")
 	for i := 0; i < c.hash; i++ {
 		hashcomCase(r, i)
+		if i < 40 || r.a.Tier == "thorough" {
+			hashcomAliasCase(r, i)
+		}
 		r.maybeFlush()
 	}
 	lap("hashcom")
@@ -276,6 +279,8 @@ func replay(r *runner) {
 		}
 		idx, _ := strconv.Atoi(f[1])
 		switch {
+		case f[0] == "hashcom-alias":
+			hashcomAliasCase(r, idx)
 		case f[0] == "hashcom":
 			hashcomCase(r, idx)
 		case strings.HasPrefix(f[0], "pedersen-"), strings.HasPrefix(f[0], "pedeq-"):
